@@ -83,7 +83,7 @@ def run(rep, tier, seed, replay_file=None):
             bc.run_asis(rep, ["unsub"])
     # 2. model -> code: driver schedules of BrokerStep, executed on the real broker, judged by BrokerTrace
     with bc.phase(rep, "schedule-generation"):
-        scheds, _ = bc.gen_schedules(rep, quick, seed, 1500 if quick else 9000)
+        scheds, _ = bc.gen_schedules(rep, quick, seed, 1100 if quick else 9000, ("focus", "busy"))
     with bc.phase(rep, "schedule-execution"):
         hists = bc.run_schedules(rep, binary, scheds, 12, seed, "broker/sched") if scheds else []
     # 3. code -> model: random concurrent drivers
